@@ -919,8 +919,9 @@ def line_label_of_name(line_name):
 
 
 # NC templates carry no tooltip; the widget NAME carries the line: y_d400wf_li6_good -> '6',
-# y_d400wf_li10b_good -> '10b'.  Only the unambiguous pattern `_li<NUM><letter?>_` is read.
-_NC_NAME = re.compile(r'_li(\d{1,2})([a-z]?)_(?:good|pg\d+_good)$')
+# y_d400wf_li10b_good -> '10b', y_d400wf_li12a_pg1_good -> '12a', y_d400_sch_a_wf_li7a -> '7a'.  Only the
+# pattern `_li<NUM><letter?>[_pg<n>|_page<n>][_good]` at the END of the name is read.
+_NC_NAME = re.compile(r'_li([1-9]\d?)([a-z]?)(?:_(?:pg|page)\d+)?(?:_good)?$')
 
 
 def label_from_nc_name(name):
@@ -1069,6 +1070,77 @@ def extract_all(repo=None):
         except (PDFError, ET.ParseError, zlib.error, RecursionError, KeyError, IndexError, TypeError, ValueError) as e:
             out[rel] = {'error': f'{type(e).__name__}: {e}', 'fields': [], 'routes': {}, 'disagreements': [],
                         'stats': {}, 'notes': []}
+    return out
+
+
+_SRC_ENTRY = re.compile(r"^\s*#?\s*#?\s*(Text|Button|Choice|OptionlessButton)PDFField\('((?:[^'\\]|\\.)*)',\s*'((?:[^'\\]|\\.)*)'(.*)$")
+
+
+def source_crosscheck(extracted, repo=None):
+    """Third route: the form sources keep the complete `pdftk dump_data_fields` listing of every template
+    (entries that habutax does not fill are commented out).  Compare every such entry -- commented or not --
+    with the extracted tree: name found, widget type, max_length, button on-state, choice list.
+    Returns {"entries": n, "templates": n, "disagreements": [...]}.  Pure text scan; nothing is imported."""
+    import ast
+    repo = repo or os.environ.get('HABUTAX_REPO', '/repo')
+    base = os.path.join(repo, 'habutax', 'forms')
+    out = {'entries': 0, 'templates': 0, 'disagreements': [], 'template_fields_not_listed': {}}
+    for ydir in sorted(os.listdir(base)):
+        if not re.fullmatch(r'ty20\d\d', ydir):
+            continue
+        for fn in sorted(os.listdir(os.path.join(base, ydir))):
+            if not fn.endswith('.py'):
+                continue
+            with open(os.path.join(base, ydir, fn), encoding='utf-8') as fh:
+                src = fh.read()
+            m = re.search(r"pdf_file = os\.path\.join\(os\.path\.dirname\(__file__\), '([^']+)'\)", src)
+            if not m:
+                continue
+            rel = os.path.join('habutax', 'forms', ydir, m.group(1))
+            tpl = extracted.get(rel)
+            if tpl is None:
+                out['disagreements'].append({'what': 'template named in source was not extracted', 'template': rel})
+                continue
+            out['templates'] += 1
+            tf = {x['name']: x for x in tpl['fields']}
+            seen = set()
+            for line in src.split('\n'):
+                mm = _SRC_ENTRY.match(line)
+                if not mm:
+                    continue
+                kind, name, _val, rest = mm.groups()
+                out['entries'] += 1
+                seen.add(name)
+                x = tf.get(name)
+                if x is None:
+                    out['disagreements'].append({'what': 'source entry not found in the extracted template', 'template': rel, 'name': name})
+                    continue
+                want = {'Text': 'Tx', 'Button': 'Btn', 'Choice': 'Ch', 'OptionlessButton': 'Btn'}[kind]
+                if x['type'] != want:
+                    out['disagreements'].append({'what': 'widget type', 'template': rel, 'name': name, 'source': kind, 'extracted': x['type']})
+                ml = re.search(r'max_length=(\d+)', rest)
+                if kind == 'Text' and (int(ml.group(1)) if ml else None) != x['max_len']:
+                    out['disagreements'].append({'what': 'max length', 'template': rel, 'name': name,
+                                                 'source': ml.group(1) if ml else None, 'extracted': x['max_len']})
+                if kind == 'Button':
+                    tv = re.match(r"\s*,\s*'([^']*)'", rest)
+                    if not tv or [tv.group(1)] != x.get('on_states'):
+                        out['disagreements'].append({'what': 'on-state', 'template': rel, 'name': name,
+                                                     'source': tv.group(1) if tv else None, 'extracted': x.get('on_states')})
+                if kind == 'Choice':
+                    ch = re.match(r'\s*,\s*(\[[^\]]*\])', rest)
+                    opts = [o[0] if isinstance(o, list) else o for o in x.get('options', [])]
+                    try:
+                        lst = ast.literal_eval(ch.group(1)) if ch else None
+                    except (ValueError, SyntaxError):
+                        lst = None
+                    if lst != opts:
+                        out['disagreements'].append({'what': 'choice list', 'template': rel, 'name': name,
+                                                     'source': lst, 'extracted': opts})
+            missing = sorted(n for n in tf if n not in seen)
+            if missing:
+                # informational: Schedule B builds its rows in a loop, so they are not literal source entries
+                out['template_fields_not_listed'][rel] = len(missing)
     return out
 
 
